@@ -194,13 +194,18 @@ def run_conn(kind, cfgd, peer, data):
 
 # ---- canonical observation -----------------------------------------------------------------------
 
+KEY_CODES = {k: -(i + 1) for i, k in enumerate(
+    ["REQUEST_METHOD", "QUERY_STRING", "RAW_URI", "SERVER_PROTOCOL", "CONTENT_TYPE", "CONTENT_LENGTH", "wsgi.url_scheme",
+     "REMOTE_ADDR", "REMOTE_PORT", "PATH_INFO", "SCRIPT_NAME", "PROXY_PROTOCOL", "PROXY_ADDR", "PROXY_PORT"])}
+
+
 def enc_env(env):
     out = [len(env)]
     for k in sorted(env):
         v = env[k]
         if not isinstance(v, str):
             v = repr(v)
-        out += vlib.enc_codepoints(k) + vlib.enc_codepoints(v)
+        out += ([KEY_CODES[k]] if k in KEY_CODES else vlib.enc_codepoints(k)) + vlib.enc_codepoints(v)
     return out
 
 
@@ -319,9 +324,9 @@ def netloc_candidates(target):
     return out
 
 
-def model_expr(kind, cfgd, peer, data):
+def model_expr(kind, cfgd, peer, data, cfg_name=None):
     ok4, ok6, bad = world_tables(data)
-    return "conn_obs %s %s %s %s %s %s %s%%N" % (coq_strs(ok4), coq_strs(ok6), coq_strs(bad), coq_cfg(cfgd),
+    return "conn_obs %s %s %s %s %s %s %s%%N" % (coq_strs(ok4), coq_strs(ok6), coq_strs(bad), cfg_name or coq_cfg(cfgd),
                                                  WORKER[kind], coq_peer(peer), B(data))
 
 
@@ -464,14 +469,30 @@ def ref_env(cfgd, peer, raw, proxy_decl):
         env["REMOTE_ADDR"], env["REMOTE_PORT"] = peer[0].encode("latin-1"), str(peer[1]).encode()
     else:
         env["REMOTE_ADDR"] = peer.encode("latin-1")
-    # path
-    if script_name and not path.startswith(script_name):
-        refuse = refuse or "path outside SCRIPT_NAME"
-        env["SCRIPT_NAME"], env["PATH_INFO"] = script_name, None
-    else:
-        env["SCRIPT_NAME"] = script_name
-        env["PATH_INFO"] = ref_pct_decode(path[len(script_name):])
+    # path: SCRIPT_NAME is the configured (or legitimately forwarded) one and SCRIPT_NAME + PATH_INFO is the
+    # percent-decoded path, one latin-1 character per octet (judged by ref_path_check)
+    env["SCRIPT_NAME"] = script_name
+    env["_RAW_PATH"] = path
+    env["_DECODED_PATH"] = ref_pct_decode(path)
     return {k: (v.decode("latin-1") if isinstance(v, bytes) else v) for k, v in env.items()}, refuse
+
+
+def ref_path_check(env, exp):
+    """None when SCRIPT_NAME / PATH_INFO of the observed environ are what the reference demands."""
+    sn = exp["SCRIPT_NAME"]
+    if env.get("SCRIPT_NAME") != sn:
+        return "SCRIPT_NAME = %r, reference %r" % (env.get("SCRIPT_NAME"), sn)
+    pi = env.get("PATH_INFO")
+    if pi is None:
+        return "PATH_INFO missing"
+    if "%" not in sn:
+        if sn + pi != exp["_DECODED_PATH"]:
+            return "SCRIPT_NAME + PATH_INFO = %r, reference (decoded path) %r" % (sn + pi, exp["_DECODED_PATH"])
+    else:
+        raw = exp["_RAW_PATH"]
+        if not raw.startswith(sn) or pi != ref_pct_decode(raw[len(sn):].encode("latin-1")).decode("latin-1"):
+            return "PATH_INFO = %r does not continue SCRIPT_NAME %r in %r" % (pi, sn, raw)
+    return None
 
 
 _PORT = re.compile(rb"(0|[1-9][0-9]{0,4})$")
@@ -526,19 +547,47 @@ def run_cases(ctx, tag, cases, shard=250):
         c["envs"], c["errs"], c["codes"] = run_conn(c["kind"], c["cfg"], c["peer"], c["data"])
         c["obs"] = enc_conn(c["envs"], c["errs"])
     ctx.log("%s: %d connections served by the real workers" % (tag, len(cases)))
-    exprs = [model_expr(c["kind"], c["cfg"], c["peer"], c["data"]) for c in cases]
+    # the comparison itself is done by the kernel (obs_agree): only a verdict is printed when they agree.
+    # Cases are grouped by settings so that each file defines the few cfg records it needs once.
+    order = sorted(range(len(cases)), key=lambda i: repr(sorted(cases[i]["cfg"].items())))
+    nb = max(1, min(4 * vlib.NCPU, len(cases) // 40))
+    size = (len(cases) + nb - 1) // nb
+    batches = [order[i:i + size] for i in range(0, len(order), size)]
+    res = [None] * len(cases)
+
+    def run_batch(bi):
+        idxs = batches[bi]
+        names = {}
+        defs = []
+        exprs = []
+        for i in idxs:
+            c = cases[i]
+            key = repr(sorted(c["cfg"].items()))
+            if key not in names:
+                names[key] = "cfg_%d" % len(names)
+                defs.append("Definition %s : cfg := %s." % (names[key], coq_cfg(c["cfg"])))
+            exprs.append("agree_or_show (%s) %s" % (model_expr(c["kind"], c["cfg"], c["peer"], c["data"], names[key]),
+                                                    vlib.coq_listZ(c["obs"])))
+        out = ctx.coq_eval("%s%d" % (tag, bi), HEADER + "\n".join(defs) + "\n", exprs, shard=len(exprs) + 1)
+        return idxs, out
     try:
-        res = ctx.coq_eval(tag, HEADER, exprs, shard=shard)
-        ctx.log("%s: model evaluated by coqc (vm_compute)" % tag)
+        from concurrent.futures import ThreadPoolExecutor
+        with ThreadPoolExecutor(vlib.NCPU) as ex:
+            for idxs, out in ex.map(run_batch, range(len(batches))):
+                for i, r in zip(idxs, out):
+                    res[i] = r
+        ctx.log("%s: model evaluated and compared by coqc (vm_compute), %d files" % (tag, len(batches)))
     except vlib.BrokenTie as e:
         ctx.broken.append("correspondence %s: %s" % (tag, str(e)[:1500]))
         ctx.log("CORRESPONDENCE BROKEN:", str(e)[:1500])
         return None
     bad = []
     for i, (m, c) in enumerate(zip(res, cases)):
-        c["model"] = m
-        if not same_obs(m, c["obs"]):
-            bad.append(i)
+        if m == [1]:
+            c["model"] = c["obs"]
+            continue
+        c["model"] = m[1:]
+        bad.append(i)
     ctx.cov["traces_validated_against_impl"] += len(cases) - len(bad)
     return bad
 
